@@ -22,6 +22,7 @@ import os
 import re
 
 from analysis import rule
+from analysis.inline import expand as inline_expand
 from analysis.callgraph import CallGraph
 from analysis.guards import GuardAnalysis
 from analysis.modset import ModSets
@@ -87,6 +88,7 @@ TYPE_INVARIANTS = [
      [("v", ("this_station",), 0, 125), ("v", ("next_station",), 0, 125), ("v", ("previous_station",), 0, 125)], [], "I-ADDR125"),
     (re.compile(r"^fdl::telegram::TelegramTxResponse$"), (), [("v", ("bytes_sent",), 0, 255)], [], "I-TXRESP"),
     (re.compile(r"^std::option::Option<fdl::telegram::TelegramTxResponse>$"), ("<Some>", "0"), [("v", ("bytes_sent",), 0, 255)], [], "I-TXRESP"),
+    (re.compile(r"^std::ops::ControlFlow<.*, fdl::telegram::TelegramTxResponse>$"), ("<Continue>", "0"), [("v", ("bytes_sent",), 0, 255)], [], "I-TXRESP"),
 ]
 
 # argument hypotheses that do not come from call sites: (function name suffix, parameter index) -> (kind, lo, hi, hypothesis)
@@ -146,6 +148,8 @@ class Numeric:
         self._ret_stack.add(callee)
         res = None
         try:
+            # a function split into private single-call-site phases is summarised as one body (keeps the relation between phases)
+            g = inline_expand(self.P, g)
             na = NumAnalysis(g, self.P, ret_summary=self.ret_of, partition_discr=True, max_disj=48)
             lo, hi = INF, -INF
             v0 = ("v", 0, ())
@@ -854,6 +858,8 @@ def check_support(ctx, P, cg, num, used):
         w = writers("cycle_state", "CycleState")
         allowed = {"dp::master::DpMaster::<'a>::new", "dp::master::DpMaster::<'a>::increment_cycle_state",
                    "<dp::master::DpMaster<'a> as fdl::FdlApplication>::transmit_telegram", "<dp::master::DpMaster<'a> as fdl::FdlApplication>::receive_reply"}
+        from analysis.callgraph import reached_only_from
+        allowed |= {w_ for w_ in w if reached_only_from(P, CR, cg, w_, allowed)}
         ctx.ob("s.support", "I-INFLIGHT|writers-of-cycle-state", set(w) <= allowed and bool(w), "DpMasterState.cycle_state written in %s" % w)
         # requests are sent only while cycle_state is DataExchange: the only transmitting path of the slot loop reads the index from that arm
         f = P.get(CR, "<dp::master::DpMaster<'a> as fdl::FdlApplication>::transmit_telegram")
@@ -1023,6 +1029,7 @@ def check_hof_support(ctx, P):
             a2, a3 = tb.joperand(c["args"][2]), tb.joperand(c["args"][3])
             ok = a2 == ("arg", "pdu_len") and a3 == ("arg", "write_pdu")
     ctx.ob("s.support", "HOF|forwarded", ok, "send_data_telegram does not pass its pdu_len / closure arguments unchanged to serialize")
+    ser = inline_expand(P, ser)
     na = NumAnalysis(ser, P, partition_discr=True, max_disj=64)
     n, good = 0, True
     for b, c in call_sites(ser):
